@@ -315,12 +315,15 @@ class Connection:
             pipe.write(data)
             return
         if other._lost or other._closing:
-            # peer is gone: the kernel would answer with RST
+            # peer is gone: the kernel answers the first such write with RST (ECONNRESET at the writer); a write that comes
+            # after that reset was seen fails with EPIPE - which of the two the application gets is a matter of timing
             self.net.count("write_to_closed_peer")
             t = pipe._next_time(pipe.rng.uniform(pipe.policy.lat_min, pipe.policy.lat_max) * 2)
-            self.net.loop.call_at(
-                t, tr._connection_lost, ConnectionResetError(104, "Connection reset by peer")
-            )
+            exc: ConnectionError = ConnectionResetError(104, "Connection reset by peer")
+            if pipe.rng.random() < 0.3:
+                exc = BrokenPipeError(32, "Broken pipe")
+                self.net.count("write_to_closed_peer_epipe")
+            self.net.loop.call_at(t, tr._connection_lost, exc)
             return
         pipe.write(data)
 
